@@ -120,6 +120,34 @@ def validate_atoms_setters() -> dict[str, str]:
 
 
 @functools.lru_cache(maxsize=None)
+def unconstrained_position_writers() -> frozenset[str]:
+    """Public Atoms methods that write the positions array directly (no ``adjust_positions``): computed from the
+    installed ASE source, not listed by hand.  A method counts when it assigns / augments ``self.positions`` or
+    ``self.arrays['positions']`` (whole or a part) and never calls ``self.set_positions``."""
+    tree = _tree("atoms.py")
+    cls = next((st for st in tree.body if isinstance(st, ast.ClassDef) and st.name == "Atoms"), None)
+    _require(cls is not None, "class Atoms not found")
+    out = set()
+    for fn in cls.body:
+        if not isinstance(fn, ast.FunctionDef) or fn.name.startswith("_") or fn.name == "set_positions":
+            continue
+        if any(norm(d).endswith(".setter") or norm(d) == "property" for d in fn.decorator_list):
+            continue
+        writes = False
+        for n in ast.walk(fn):
+            tg = n.targets if isinstance(n, ast.Assign) else ([n.target] if isinstance(n, ast.AugAssign) else [])
+            for t in tg:
+                base = t.value if isinstance(t, ast.Subscript) and norm(t.value) in ("self.positions", "self.arrays['positions']") else t
+                if norm(base) in ("self.positions", "self.arrays['positions']"):
+                    writes = True
+        calls_sp = any(isinstance(n, ast.Call) and norm(n.func) == "self.set_positions" for n in ast.walk(fn))
+        if writes and not calls_sp:
+            out.add(fn.name)
+    _require({"translate", "rotate"} <= out, "Atoms.translate / rotate no longer write the positions array directly")
+    return frozenset(out)
+
+
+@functools.lru_cache(maxsize=None)
 def validate_euler_rotate() -> str:
     f = _func("atoms.py", "euler_rotate", "Atoms")
     src = norm(f)
